@@ -14,8 +14,8 @@ EXTENDS Fen, Json, IOUtils, TLC
 
 CONSTANT Props
 Tr == ndJsonDeserialize(IOEnv.TRACE)
-VARIABLES l, oracle, valid
-vars == <<l, oracle, valid>>
+VARIABLES l, oracle, valid, act
+vars == <<l, oracle, valid, act>>
 Chk(name, cond) == IF cond THEN {} ELSE {name}
 Want(p) == p \in Props
 
@@ -27,6 +27,18 @@ B == INSTANCE Board WITH
        GMayKill <- LAMBDA p, m : p.b[m.t+1] # 0 \/ m.p \in {KNIGHT, BISHOP},
        GInsufficient <- LAMBDA p : Insufficient(p.b),
        NoMove <- NoMv, NoProgressLimit <- 100
+
+\* the engine object (Engine.tla) around the oracle board; act = what Engine.tla keeps besides the board
+E == INSTANCE Engine WITH
+       GLegal <- Legal, GApply <- Apply, GTurn <- LAMBDA p : p.turn,
+       GResets <- IsPawnMoveOrCapture, GIsCastle <- IsCastle,
+       GInCheck <- LAMBDA p : InCheck(p.b, p.turn),
+       GMayKill <- LAMBDA p, m : p.b[m.t+1] # 0 \/ m.p \in {KNIGHT, BISHOP},
+       GInsufficient <- LAMBDA p : Insufficient(p.b),
+       NoMove <- NoMv, NoProgressLimit <- 100, HaltOnMutate <- TRUE
+NoAct == [active |-> FALSE, root |-> <<>>, live |-> 0]
+Eng(bd, a) == [bd |-> bd, active |-> a.active, root |-> a.root, live |-> a.live]
+ActOf(s) == [active |-> s.active, root |-> s.root, live |-> s.live]
 
 StartFen == "rnbqkbnr/pppppppp/8/8/8/8/PPPPPPPP/RNBQKBNR w KQkq - 0 1"
 
@@ -86,39 +98,51 @@ JudgeReadout(e) ==
                         /\ MetaOf(e.hist[i].mv) = oracle.hist[i].mv)
              ELSE {})
 
-Init == l = 1 /\ oracle = <<>> /\ valid = FALSE
+Init == l = 1 /\ oracle = <<>> /\ valid = FALSE /\ act = NoAct
 
 Next ==
   /\ l <= Len(Tr)
   /\ LET e == Tr[l] IN
-     CASE e.op = "session" -> oracle' = <<>> /\ valid' = FALSE
+     CASE e.op = "session" -> oracle' = <<>> /\ valid' = FALSE /\ act' = NoAct
        [] e.op = "poscmd" ->
             LET bd == IF e.shape = "ucinewgame" THEN oracle ELSE Describe(e.line)
                 f == JudgeCmd(e, bd)
             IN /\ (f # {} => PrintT("FAIL|" \o ToString(l) \o "|" \o ToString(f)))
                /\ oracle' = bd
                /\ valid' = IF e.shape = "ucinewgame" THEN FALSE ELSE TRUE
+               /\ UNCHANGED act
        [] e.op = "api" ->
-            \* Engine.Reset / Move / TakeBack called directly; a call that must fail changes nothing
-            LET can == CASE e.kind = "start" -> TRUE
-                         [] e.kind = "reset" -> e.bad = 0
-                         [] e.kind = "move" -> e.bad = 0 /\ B!CanPush(oracle, MoveOf(e.arg))
-                         [] e.kind = "takeback" -> B!CanPop(oracle)
-                bd == IF ~can THEN oracle
-                      ELSE CASE e.kind = "start" -> LET d == Decode(StartFen) IN B!NewBoard(d.pos, d.np, d.fm)
-                             [] e.kind = "reset" -> LET d == Decode(e.arg) IN B!NewBoard(d.pos, d.np, d.fm)
-                             [] e.kind = "move" -> B!PushOp(oracle, MoveOf(e.arg))
-                             [] e.kind = "takeback" -> B!PopOp(oracle)
-                f == Chk("c14.engine-call-outcome", (e.err = 0) = can)
-                     \cup JudgeState(e, bd)
-                     \cup (IF e.kind = "takeback" /\ can THEN Chk("c14.engine-takeback-result", e.state.out = 1) ELSE {})
+            \* Engine.Reset / Move / TakeBack / Analyze / Halt called directly: one Engine.tla call each
+            LET s0 == Eng(oracle, act)
+                r == CASE e.kind = "start" -> [s |-> E!NewEngine(LET d == Decode(StartFen) IN B!NewBoard(d.pos, d.np, d.fm)), err |-> FALSE]
+                       [] e.kind = "reset" -> E!Reset(s0, e.bad = 0, IF e.bad = 0 THEN LET d == Decode(e.arg) IN B!NewBoard(d.pos, d.np, d.fm) ELSE oracle)
+                       [] e.kind = "move" -> E!Move(s0, e.bad = 0, IF e.bad = 0 THEN MoveOf(e.arg) ELSE NoMv)
+                       [] e.kind = "takeback" -> E!TakeBack(s0)
+                       [] e.kind = "analyze" -> E!Analyze(s0)
+                       [] e.kind = "halt" -> E!Halt(s0)
+                board == e.kind \in {"start", "reset", "move", "takeback"}
+                \* the limit an analysis runs under: the one requested (0 = explicitly none), else the engine's default
+                lim == IF e.kind = "analyze" THEN (IF e.limit >= 0 THEN e.limit ELSE e.default) ELSE 0
+                f == (IF board THEN Chk("c14.engine-call-outcome", (e.err = 1) = r.err)
+                               ELSE Chk("x.engine-call-outcome-" \o e.kind, (e.err = 1) = r.err))
+                     \cup JudgeState(e, r.s.bd)
+                     \cup (IF e.kind = "takeback" /\ ~r.err THEN Chk("c14.engine-takeback-result", e.state.out = 1) ELSE {})
+                     \cup (IF e.kind = "halt" /\ ~r.err /\ e.err = 0
+                           THEN Chk("x.engine-halt-line-fits", E!PVFits(r.s, MetaOf(e.first))) ELSE {})
+                     \cup (IF e.kind = "analyze" /\ ~r.err /\ e.err = 0 /\ Want("C15")
+                           THEN Chk("harness.analysis-neither-ended-nor-deepened", e.closed # -2)
+                                \cup Chk("c15.analysis-ends-at-the-limit", lim > 0 => e.closed = lim)
+                                \cup Chk("c15.analysis-without-limit-ended", lim = 0 => e.closed = -1)
+                           ELSE {})
+                     \cup Chk("x.engine-searches-current", E!SearchesCurrent(r.s) /\ E!NoLeak(r.s))
             IN /\ (f # {} => PrintT("FAIL|" \o ToString(l) \o "|" \o ToString(f)))
-               /\ oracle' = bd
+               /\ oracle' = r.s.bd
+               /\ act' = ActOf(r.s)
                /\ valid' = TRUE
        [] e.op = "readout" ->
             /\ LET f == JudgeReadout(e) IN f # {} => PrintT("FAIL|" \o ToString(l) \o "|" \o ToString(f))
-            /\ UNCHANGED <<oracle, valid>>
-       [] OTHER -> UNCHANGED <<oracle, valid>>
+            /\ UNCHANGED <<oracle, valid, act>>
+       [] OTHER -> UNCHANGED <<oracle, valid, act>>
   /\ l' = l + 1
 
 Spec == Init /\ [][Next]_vars
